@@ -297,15 +297,15 @@ def make_threading(rig):
             self._flag = False
 
         def wait(self, timeout=None):
-            if self._flag:
-                return True
             if timeout is None:
                 deadline = None
             else:
                 dt = to_ns(timeout, rig.anomalies)
-                if rig.T is None:
+                if rig.T is None and sim.current.wid > 0:
                     rig.T = dt
                 deadline = sim.now + max(0, dt)     # a negative timeout does not block
+            if self._flag:
+                return True
             sim.block(deadline, lambda: self._flag)
             return self._flag
 
